@@ -26,6 +26,7 @@ type Scenario struct {
 	R          *Runner
 	Nontrivial bool
 	Tags       []string
+	Directs    []Mismatch
 }
 
 type Gen struct {
@@ -34,6 +35,7 @@ type Gen struct {
 	tags  map[string]bool
 	nontr bool
 	tier  string
+	directs []Mismatch // mismatches against a directly evaluated specification
 }
 
 func (g *Gen) tag(s string) { g.tags[s] = true }
@@ -74,6 +76,7 @@ type Result struct {
 	AgreeSum         int            `json:"scenarios_agreeing_with_sum_variant"`
 	AgreeAvgOnly     int            `json:"scenarios_agreeing_only_with_avg_variant"`
 	Hangs            int            `json:"hangs"`
+	ProbeFindings    []ProbeFinding `json:"probe_findings"`
 	WallS            float64        `json:"wall_s"`
 	SampleTokens     []string       `json:"-"`
 	SampleOutputs    [][]string     `json:"-"`
@@ -232,6 +235,11 @@ func main() {
 			distinct[key] = true
 			res.DistinctNontriv++
 		}
+		for di := range s.Directs {
+			d := s.Directs[di]
+			res.Violations = append(res.Violations, Violation{Family: s.Family + "/direct-spec-oracle", Index: i, Scenario: scenarioString(s.R.Cmds),
+				Tokens: lines[2*i], RngSeed: s.R.rngSeed, Mismatch: &d, Kind: "violation"})
+		}
 		m0, vals, inex := compareScenario(s, outs[2*i], thr, !concurrent)
 		res.ValuesCompared += vals
 		res.InexactMatches += inex
@@ -266,6 +274,7 @@ func main() {
 	if len(res.Known) > 3 {
 		res.Known = res.Known[:3]
 	}
+	res.ProbeFindings = probesFor(*prop)
 	res.WallS = time.Since(start).Seconds()
 
 	if *samplePath != "" {
@@ -289,7 +298,7 @@ func generate(f Family, rngSeed uint64, tier string) *Scenario {
 			tags = append(tags, t)
 		}
 		sort.Strings(tags)
-		done <- &Scenario{Family: f.Name, R: g.Runner, Nontrivial: g.nontr, Tags: tags}
+		done <- &Scenario{Family: f.Name, R: g.Runner, Nontrivial: g.nontr, Tags: tags, Directs: g.directs}
 	}()
 	select {
 	case s := <-done:
